@@ -14,9 +14,9 @@ func main() {
 		Assumptions: []string{"refrv reference interpreter decides what each instruction writes", "provider = deterministic hash of (key,address)"},
 		Cases: func(t string) int {
 			if t == "thorough" {
-				return 80000
+				return 400000
 			}
-			return 12000
+			return 30000
 		},
 		Floor: func(t string) int {
 			if t == "thorough" {
